@@ -227,6 +227,22 @@ HARNESS = r'''
 #define SZ_BITS 10
 #endif
 #define NR 4
+/* each property's groups compile only that property's assertions (the others cost solver time for nothing) */
+#ifdef CHECK_C03
+#define VERIF_A3(c, l) __CPROVER_assert(c, l)
+#else
+#define VERIF_A3(c, l) ((void) 0)
+#endif
+#ifdef CHECK_C04
+#define VERIF_A4(c, l) __CPROVER_assert(c, l)
+#else
+#define VERIF_A4(c, l) ((void) 0)
+#endif
+#ifdef CHECK_C05
+#define VERIF_A5(c, l) __CPROVER_assert(c, l)
+#else
+#define VERIF_A5(c, l) ((void) 0)
+#endif
 static modeDevice_t dev;
 static modeMemoryPool_t *pool;
 static modeMemory_t *R[NR]; static bool live[NR]; static bool isSlice[NR]; static int parent[NR];
@@ -248,21 +264,21 @@ static udim_t spec_reserved(udim_t a) {
 static void check_pool(const char *when) {
   /* ---- C03: placement */
   for (int i = 0; i < NR; ++i) if (live[i]) {
-    __CPROVER_assert(R[i]->offset >= 0 && (udim_t) R[i]->offset + R[i]->size <= pool->size, "C03: every live reservation lies inside the pool");
-    __CPROVER_assert(pool->buffer != 0 && R[i]->ptr.a == pool->buffer->ptr.a + (udim_t) R[i]->offset, "C03: reservation pointer is the pool buffer plus its offset");
-    __CPROVER_assert(pool->buffer != 0 && pool->buffer->size >= pool->size, "C03: backing buffer is at least as large as the pool size");
+    VERIF_A3(R[i]->offset >= 0 && (udim_t) R[i]->offset + R[i]->size <= pool->size, "C03: every live reservation lies inside the pool");
+    VERIF_A3(pool->buffer != 0 && R[i]->ptr.a == pool->buffer->ptr.a + (udim_t) R[i]->offset, "C03: reservation pointer is the pool buffer plus its offset");
+    VERIF_A3(pool->buffer != 0 && pool->buffer->size >= pool->size, "C03: backing buffer is at least as large as the pool size");
     if (isSlice[i] && live[parent[i]])
-      __CPROVER_assert(R[i]->offset >= R[parent[i]]->offset && (udim_t) R[i]->offset + R[i]->size <= (udim_t) R[parent[i]]->offset + R[parent[i]]->size, "C03: a slice lies inside the reservation it was cut from");
+      VERIF_A3(R[i]->offset >= R[parent[i]]->offset && (udim_t) R[i]->offset + R[i]->size <= (udim_t) R[parent[i]]->offset + R[parent[i]]->size, "C03: a slice lies inside the reservation it was cut from");
     for (int j = i + 1; j < NR; ++j) if (live[j] && !isSlice[i] && !isSlice[j])
-      __CPROVER_assert((udim_t) R[i]->offset + R[i]->size <= (udim_t) R[j]->offset || (udim_t) R[j]->offset + R[j]->size <= (udim_t) R[i]->offset || R[i]->size == 0 || R[j]->size == 0,
+      VERIF_A3((udim_t) R[i]->offset + R[i]->size <= (udim_t) R[j]->offset || (udim_t) R[j]->offset + R[j]->size <= (udim_t) R[i]->offset || R[i]->size == 0 || R[j]->size == 0,
                        "C03: live reservations occupy pairwise disjoint byte ranges");
   }
   /* ---- C04: accounting */
-  __CPROVER_assert(pool->numReservations() == (udim_t) nlive(), "C04: numReservations() equals the number of live reservations");
-  __CPROVER_assert(pool->reserved == spec_reserved(pool->alignment), "C04: reserved() equals the size of the union of the live ranges rounded out to the alignment");
-  __CPROVER_assert(pool->size >= pool->reserved, "C04: size() is at least reserved()");
-  if (nlive() == 0) __CPROVER_assert(pool->reserved == 0, "C04: reserved() is 0 when every reservation is released");
-  __CPROVER_assert(dev.bytesAllocated == (pool->buffer ? pool->buffer->size : (udim_t) 0), "C05: device accounting equals the live backing buffer of the pool");
+  VERIF_A4(pool->numReservations() == (udim_t) nlive(), "C04: numReservations() equals the number of live reservations");
+  VERIF_A4(pool->reserved == spec_reserved(pool->alignment), "C04: reserved() equals the size of the union of the live ranges rounded out to the alignment");
+  VERIF_A4(pool->size >= pool->reserved, "C04: size() is at least reserved()");
+  if (nlive() == 0) VERIF_A4(pool->reserved == 0, "C04: reserved() is 0 when every reservation is released");
+  VERIF_A5(dev.bytesAllocated == (pool->buffer ? pool->buffer->size : (udim_t) 0), "C05: device accounting equals the live backing buffer of the pool");
 }
 
 static void release(int i) { pool->removeModeMemoryRef(R[i]); live[i] = false; }
@@ -278,7 +294,10 @@ static void construct_state() {
   pool = new modeMemoryPool_t(&dev);
   pool->alignment = ALIGN;
   for (int i = 0; i < NR; ++i) { R[i] = 0; live[i] = false; isSlice[i] = false; parent[i] = -1; }
-  int n = nondet_int(); __CPROVER_assume(0 <= n && n <= 3);
+#ifndef MAXN
+#define MAXN 3
+#endif
+  int n = nondet_int(); __CPROVER_assume(0 <= n && n <= MAXN);
   udim_t cum = 0;
   for (int i = 0; i < 3; ++i) if (i < n) {
     udim_t s = nondet_ulong(); __CPROVER_assume(1 <= s && s < (1ul << SZ_BITS));
@@ -318,22 +337,22 @@ extern "C" void h_pool_op() {
     int k = 0; while (k < NR && R[k] != 0) ++k;
     __CPROVER_assume(k < NR);
     R[k] = pool->reserve(s); live[k] = true; fresh = k;
-    __CPROVER_assert(R[k]->size == s, "C03: reserve returns a reservation of the requested size");
+    VERIF_A3(R[k]->size == s, "C03: reserve returns a reservation of the requested size");
   } else if (op == 1) {     /* resize */
     udim_t b = nondet_ulong(); __CPROVER_assume(b < (1ul << (SZ_BITS + 3)));
     verif_request_invalid = b < reserved0;
     pool->resize(b);
-    __CPROVER_assert(b >= reserved0, "C04: resizing below reserved() must raise occa::exception");
-    __CPROVER_assert(pool->size >= b, "C04: after resize(b) size() is at least b");
+    VERIF_A4(b >= reserved0, "C04: resizing below reserved() must raise occa::exception");
+    VERIF_A4(pool->size >= b, "C04: after resize(b) size() is at least b");
   } else if (op == 2) {     /* shrinkToFit */
     pool->resize(pool->reserved);
-    __CPROVER_assert(pool->size >= pool->reserved, "C04: shrinkToFit keeps size() >= reserved()");
+    VERIF_A4(pool->size >= pool->reserved, "C04: shrinkToFit keeps size() >= reserved()");
   } else if (op == 3) {     /* setAlignment */
     udim_t a = nondet_bool() ? (udim_t) ALIGN2 : (udim_t) 0;
     verif_request_invalid = a == 0;
     pool->setAlignment(a);
-    __CPROVER_assert(a != 0, "C04: alignment 0 must raise occa::exception");
-    __CPROVER_assert(pool->alignment == a, "C03: setAlignment sets the alignment");
+    VERIF_A4(a != 0, "C04: alignment 0 must raise occa::exception");
+    VERIF_A3(pool->alignment == a, "C03: setAlignment sets the alignment");
   } else if (op == 4) {     /* release */
     int j = nondet_int(); __CPROVER_assume(0 <= j && j < NR && live[j]);
     if (j == t) tracking = false;
@@ -347,10 +366,10 @@ extern "C" void h_pool_op() {
   check_pool("after the operation");
   if (tracking) {
     udim_t now = R[t]->ptr.a + idx;
-    if (pool->buffer == buf0) __CPROVER_assert(now == track_addr && !copy_valid, "C03: without migration a live reservation keeps its bytes in place");
-    else __CPROVER_assert(copy_valid && copy_addr == now && !clobbered, "C03: growing, compacting or re-aligning the pool moves every live byte to its reservation's new place");
+    if (pool->buffer == buf0) VERIF_A3(now == track_addr && !copy_valid, "C03: without migration a live reservation keeps its bytes in place");
+    else VERIF_A3(copy_valid && copy_addr == now && !clobbered, "C03: growing, compacting or re-aligning the pool moves every live byte to its reservation's new place");
   }
-  if (pool->buffer != buf0 && buf0 != 0) __CPROVER_assert(verif_deleted_buffers == del0 + 1, "C05: the replaced backing buffer is released exactly once");
+  if (pool->buffer != buf0 && buf0 != 0) VERIF_A5(verif_deleted_buffers == del0 + 1, "C05: the replaced backing buffer is released exactly once");
 #ifdef CANARY
   __CPROVER_assert(op < 0, "canary");
 #endif
